@@ -1,6 +1,10 @@
 import Comdex.Base.Line
 import Comdex.Model.AmmPool
 import Comdex.Model.AmmKeeper
+import Comdex.Model.AmmDust
+import Comdex.Model.AmmRanged
+import Comdex.Model.AmmOrders
+import Comdex.Model.AmmMultiView
 /-! Driver for the batch-matching model (property C05).
 
 Lines (tab separated, after the sequence number):
@@ -16,6 +20,10 @@ Lines (tab separated, after the sequence number):
         real MatchableAmount(order, p) ; FillOrder(order, amt, p)
   amm.op first <prec> <price|none> <ok|nomatch|panic> <qcd|-> <results>
         real NewOrderBook(orders) ; FindMatchPrice(ob.MakeView(), prec) ; MatchAtSinglePrice(price)   (keeper's first batch)
+  amm.pv <poolId> basic <rx> <ry> | amm.pv <poolId> ranged <rx> <ry> <min> <max>      a pool of the sequence's pair
+  amm.op firstp <prec> <price|none> <ok|nomatch|panic> <qcd|-> <poolOrders> <results>
+        real FindMatchPrice(MultipleOrderViews{ob.MakeView(), pools…}, prec); per pool a buy / sell order at that price
+        (`id:poolId:dir:price:amount:offer`); MatchAtSinglePrice(price)       (keeper's first batch WITH pools)
   amm.fmp <prec> <price|none>                       real FindMatchPrice(NewOrderBook(orders).MakeView(), prec)
   amm.fmpx <prec> <price|none>                      the same at a precision the order prices are not ticks of (compared, not monitored)
   amm.view <price> <hb|none> <ls|none> <buyOver> <sellUnder>
@@ -26,9 +34,20 @@ Lines (tab separated, after the sequence number):
         real PoolBuyOrders / PoolSellOrders(NewBasicPool(rx, ry), DefaultOrderer, lowest, highest, prec); lists `price:amount,…`
         monitors pool_within_reserves / pool_not_worse_than_curve on the REAL lists
   amm.bp <fn> <rx> <ry> <price> <result|panic>      BasicPool: price, bo (BuyAmountOver), su (SellAmountUnder), bt (BuyAmountTo), st (SellAmountTo)
+  amm.rp <fn> <rx> <ry> <min> <max> <price> <result|panic>   RangedPool built by NewRangedPool(rx, ry, min, max): trans (Translation,
+        `transX:transY`), price, bo, su, bt, st as for amm.bp
+  amm.rpool <rx> <ry> <min> <max> <lowest> <highest> <prec> <buys> <sells>
+        real PoolBuyOrders / PoolSellOrders(NewRangedPool(rx, ry, min, max), DefaultOrderer, lowest, highest, prec)
+        monitor pool_within_reserves_and_curve on the REAL lists (`monRPoolBuyOrders`, `monRPoolSellOrders`)
   amm.k.begin <tickPrecision>                        a fresh pair on the REAL keeper (no pools)
   amm.k.place <dir> <msgPrice> <amount> <expireAt> <ok|err> <id> <price> <offer> <batchId>
         real MsgLimitOrder through the message router; the stored order's id / tick-fitted price / offer coin / batch id
+        monitor placed_price_within_limit on the REAL stored price (a grid tick; buy: ≤ the message price, sell: ≥ it)
+  amm.k.params <maxPriceLimitRatio> <maxNumMarketMakingOrderTicks>     the pair's parameters (after amm.k.begin)
+  amm.k.market <dir> <amount> <expireAt> <ok|err> <id> <price> <offer> <batchId>
+        real MsgMarketOrder through the message router; price = last price ± ratio fitted to the grid (`placeMarket`)
+  amm.k.mm <owner> <buyMin> <buyMax> <buyAmt> <sellMin> <sellMax> <sellAmt> <expireAt> <ok|err> <orders>
+        real MsgMMOrder; the stored tick orders `id:dir:price:amount:offer:batch` (`placeMM`: MMOrderTicks, cancelMMOrder)
   amm.k.batch <now> <lastPrice|none> <currentBatchId> <orders>
         real liquidity.EndBlocker (ExecuteRequests → ExecuteMatching, ApplyMatchResult, expiry); every stored order of the pair
         `id:open:remaining:received:status` joined by `;` (before the next BeginBlocker prunes finished orders)
@@ -37,7 +56,10 @@ results := `id:open:paid:received:matched` joined by `;`, every order of the seq
 Prices are Dec raws.  After every op the model continues from the REAL resulting order states.
 
 Monitors (evaluated on the REAL results): base_conserved (only where the D2 ghost `matchLossless`/`ticksLossless` predicts the
-loss; base_conserved_unexplained for any other disagreement with the prediction), quote_dust, fill_within_limits,
+loss; base_conserved_unexplained for any other disagreement with the prediction), quote_dust (`monQuoteDustAt` on the orders of
+the book before / after the real call = the statement of `quote_dust_bounds_match` / `_single`; every order outside the book
+untouched), quote_dust_exceeds_fills (the clause as written, `dust < #fills`, false on a real result on which the D2 ghost
+predicts a loss — `quote_dust_counterexample`; without the ghost's prediction it is reported as quote_dust), fill_within_limits,
 fill_price_within_limit, matched_receives_positive (definitions: `Comdex.Amm.Mon*` in the model file's
 companion section below — they are the decidable forms of the theorems of `Props/C05.lean`).
 -/
@@ -49,6 +71,10 @@ structure St where
   orders : List Order := []
   k : KState := KState.init        -- stored orders of the keeper-level sequences
   kprec : Nat := 4
+  kratio : Int := 100000000000000000          -- MaxPriceLimitRatio (raw)
+  kticks : Nat := 10                          -- MaxNumMarketMakingOrderTicks
+  mmIndex : List (Nat × List Nat) := []
+  pools : List (Nat × PoolV) := []            -- the pools of a first-batch-with-pools case (amm.pv lines)
 
 def init : St := {}
 
@@ -105,7 +131,7 @@ def resetFills (os : List Order) : List Order := os.map fun o => { o with fills 
 
 /-- evaluate the monitors on real results -/
 def monitors (seq : String) (pre post : List Order) (q : Option Int) (outcome : String) (flags : List String)
-    (lossless : Bool := true) : List String :=
+    (lossless : Bool := true) (dustAt : Option (List Order × Int × Int) := none) : List String :=
   let m0 := if outcome = "panic" then [s!"MON\t{seq}\tfill_within_limits"] else
             if monFillWithinLimits pre post then [] else [s!"MON\t{seq}\tfill_within_limits"]
   -- `lossless` is the ghost of `base_conserved_iff_lossless`, computed from the INPUT: it is false exactly on the books on which
@@ -115,9 +141,17 @@ def monitors (seq : String) (pre post : List Order) (q : Option Int) (outcome : 
     | true, true => []
     | false, false => [s!"MON\t{seq}\tbase_conserved"]
     | _, _ => [s!"MON\t{seq}\tbase_conserved_unexplained"]
-  let m2 := match q with
-    | some q => if monQuoteDust pre post q then [] else [s!"MON\t{seq}\tquote_dust"]
-    | none => if monUntouched pre post then [] else [s!"MON\t{seq}\tquote_dust"]
+  let m2 := match q, dustAt with
+    | some q, some (bookPre, lo, hi) =>
+      -- the statement of `quote_dust_bounds_match` / `_single` on the REAL result: the orders of the book before and after
+      let bookPost := realBookOrders bookPre post
+      let outside := (pre.zip post).all fun (o, o') => bookPre.any (fun x => x.id == o.id) ||
+        (decide (o'.opn = o.opn) && decide (o'.paid = o.paid) && decide (o'.received = o.received))
+      if !(monQuoteDustAt bookPre bookPost q lo hi && outside) then [s!"MON\t{seq}\tquote_dust"]
+      else if monDustBelowFills bookPre bookPost q then []
+      else if lossless then [s!"MON\t{seq}\tquote_dust"] else [s!"MON\t{seq}\tquote_dust_exceeds_fills"]
+    | some q, none => if monQuoteDust pre post q then [] else [s!"MON\t{seq}\tquote_dust"]
+    | none, _ => if monUntouched pre post then [] else [s!"MON\t{seq}\tquote_dust"]
   let m3 := if monFillPriceWithinLimit pre post then [] else [s!"MON\t{seq}\tfill_price_within_limit"]
   let m4 := if monMatchedReceivesPositive pre post &&
               flags == post.map (fun o => if o.isMatched then "1" else "0") then [] else [s!"MON\t{seq}\tmatched_receives_positive"]
@@ -126,7 +160,7 @@ def monitors (seq : String) (pre post : List Order) (q : Option Int) (outcome : 
 /-- compare a model answer (already rendered) with the real one, then monitor the real one -/
 def finish (st : St) (seq : String) (modelHead : String) (modelPost : Option (List Order)) (implHead : String)
     (outcome : String) (qcd : String) (res : String) (fillOp : Bool := false) (distOp : Bool := false)
-    (lossless : Bool := true) : St × List String :=
+    (lossless : Bool := true) (dustAt : Option (List Order × Int × Int) := none) : St × List String :=
   let pre := st.orders
   let mpost := (modelPost.getD pre)
   let modelLine := s!"{modelHead}\t{showRes mpost}"
@@ -145,7 +179,7 @@ def finish (st : St) (seq : String) (modelHead : String) (modelPost : Option (Li
       else if distOp then
         (monitors seq pre real none outcome (realFlags res)).filter
           (fun m => m.endsWith "fill_within_limits" || m.endsWith "matched_receives_positive")
-      else monitors seq pre real q outcome (realFlags res) lossless
+      else monitors seq pre real q outcome (realFlags res) lossless dustAt
     ({ st with orders := resetFills real }, d ++ mons)
 
 def handle (st : St) (seq : String) (f : List String) : St × List String :=
@@ -167,6 +201,7 @@ def handle (st : St) (seq : String) (f : List String) : St × List String :=
       | .ok b' q =>
         let ll := match findMatchableAmount b p with | none => true | some x => ticksLossless b.sells x p
         finish st seq s!"{mf}\tok\t{q}" (some (project st.orders b'.orders)) s!"{fma}\t{outcome}\t{qcd}" outcome qcd res (lossless := ll)
+          (dustAt := some (b.orders, p, p))
   | ["amm.op", "match", lp, dir, outcome, mp, qcd, res] =>
     match parseInt? lp with
     | none => (st, [s!"BAD\t{seq}\tmatch"])
@@ -180,7 +215,7 @@ def handle (st : St) (seq : String) (f : List String) : St × List String :=
         finish st seq s!"{md}\tnomatch\t-\t-" none s!"{dir}\t{outcome}\t{mp}\t{qcd}" outcome qcd res
       | .ok b' mpr q =>
         finish st seq s!"{md}\tok\t{mpr}\t{q}" (some (project st.orders b'.orders)) s!"{dir}\t{outcome}\t{mp}\t{qcd}" outcome qcd res
-          (lossless := matchLossless b lp)
+          (lossless := matchLossless b lp) (dustAt := some (b.orders, priceLo b.orders, priceHi b.orders))
   | ["amm.op", "dist", amt, p, outcome, qcd, res] =>
     match parseInt? amt, parseInt? p with
     | some amt, some p =>
@@ -217,8 +252,53 @@ def handle (st : St) (seq : String) (f : List String) : St × List String :=
           let ll := match findMatchPrice (makeView b) prec with
             | none => true
             | some pr => match findMatchableAmount b pr with | none => true | some x => ticksLossless b.sells x pr
+          let pr := (findMatchPrice (makeView b) prec).getD 0
           finish st seq s!"{mf}\tok\t{q}" (some (project st.orders b'.orders)) s!"{fmp}\t{outcome}\t{qcd}" outcome qcd res (lossless := ll)
+            (dustAt := some (b.orders, pr, pr))
       (st', out ++ pm)
+  | "amm.pv" :: pid :: kind :: rest =>
+    match parseNat? pid, kind, rest.mapM parseInt? with
+    | some pid, "basic", some [rx, ry] => ({ st with pools := st.pools ++ [(pid, PoolV.basic ⟨rx, ry⟩)] }, [])
+    | some pid, "ranged", some [rx, ry, mn, mx] =>
+      match RPool.new rx ry mn mx with
+      | some pl => ({ st with pools := st.pools ++ [(pid, PoolV.ranged pl)] }, [])
+      | none => (st, [s!"DIFF\t{seq}\tpv: the model's NewRangedPool panics"])
+    | _, _, _ => (st, [s!"BAD\t{seq}\tpv"])
+  | ["amm.op", "firstp", prec, fmp, outcome, qcd, pcreate, res] =>
+    match parseNat? prec with
+    | none => (st, [s!"BAD\t{seq}\tfirstp"])
+    | some prec =>
+      let firstId := st.orders.length
+      let (mp, pos, r) := matchFirstBatchPools st.orders st.pools prec firstId
+      let mf := match mp with | none => "none" | some a => toString a
+      -- the orders the pools placed: model against code
+      let mcreate := ",".intercalate (pos.map fun (o : Order) =>
+        s!"{o.id}:{o.oid}:{if o.dir = Dir.buy then 1 else 2}:{o.price}:{o.amount}:{o.offer}")
+      let d0 := if mcreate = pcreate then [] else [s!"DIFF\t{seq}\tpool orders model={mcreate}\timpl={pcreate}"]
+      -- continue with the REAL pool orders
+      let realPos : Option (List Order) := if pcreate = "" then some [] else
+        (pcreate.splitOn ",").mapM fun x => match (x.splitOn ":").mapM parseInt? with
+          | some [id, pid, dir, price, amt, offer] =>
+            some { id := id.toNat, kind := 1, oid := pid.toNat, dir := if dir = 1 then Dir.buy else Dir.sell, price := price,
+                   amount := amt, offer := offer, opn := amt, paid := 0, received := 0, batchId := 0 }
+          | _ => none
+      match realPos with
+      | none => (st, [s!"BAD\t{seq}\tfirstp pool orders"])
+      | some rpos =>
+        let st1 := { st with orders := st.orders ++ rpos }
+        let b := rpos.foldl addOrder (newBook st.orders)
+        let pr := mp.getD 0
+        let pm := match mp with
+          | none => []
+          | some a => if decide (0 < a) && isTick a prec then [] else [s!"MON\t{seq}\tfound_price_in_spread"]
+        let (st', out) := match mp, r with
+          | some _, .ok b' q =>
+            let ll := match findMatchableAmount b pr with | none => true | some x => ticksLossless b.sells x pr
+            finish st1 seq s!"{mf}\tok\t{q}" (some (project st1.orders b'.orders)) s!"{fmp}\t{outcome}\t{qcd}" outcome qcd res (lossless := ll)
+              (dustAt := some (b.orders, pr, pr))
+          | _, .panic => finish st1 seq s!"{mf}\tpanic\t-" none s!"{fmp}\t{outcome}\t{qcd}" outcome qcd res
+          | _, _ => finish st1 seq s!"{mf}\tnomatch\t-" none s!"{fmp}\t{outcome}\t{qcd}" outcome qcd res
+        (st', d0 ++ out ++ pm)
   | ["amm.fmp", prec, r] =>
     match parseNat? prec with
     | none => (st, [s!"BAD\t{seq}\tfmp"])
@@ -248,8 +328,40 @@ def handle (st : St) (seq : String) (f : List String) : St × List String :=
       (st, if m = r then [] else [s!"DIFF\t{seq}\tmodel={m}\timpl={r}"])
   | ["amm.k.begin", prec] =>
     match parseNat? prec with
-    | some prec => ({ st with k := KState.init, kprec := prec }, [])
+    | some prec => ({ st with k := KState.init, kprec := prec, mmIndex := [] }, [])
     | none => (st, [s!"BAD\t{seq}\tk.begin"])
+  | ["amm.k.params", ratio, ticks] =>
+    match parseInt? ratio, parseNat? ticks with
+    | some r, some t => ({ st with kratio := r, kticks := t }, [])
+    | _, _ => (st, [s!"BAD\t{seq}\tk.params"])
+  | ["amm.k.market", dir, amt, exp, outcome, id, price, offer, batch] =>
+    match (if dir = "1" then some Dir.buy else if dir = "2" then some Dir.sell else none), parseInt? amt, parseInt? exp with
+    | some d, some amt, some exp =>
+      match placeMarket st.k st.kprec st.kratio d amt exp with
+      | none =>
+        -- the model rejects (no last price): the real message must have been rejected too
+        (st, if outcome = "ok" then [s!"DIFF\t{seq}\tmodel=rejected (no last price)\timpl=ok {id}"] else [])
+      | some (k', so) =>
+        if outcome != "ok" then (st, []) else
+        let m := s!"{so.id}\t{so.price}\t{so.offer}\t{so.batchId}"
+        let r := s!"{id}\t{price}\t{offer}\t{batch}"
+        ({ st with k := k' }, if m = r then [] else [s!"DIFF\t{seq}\tmodel={m}\timpl={r}"])
+    | _, _, _ => (st, [s!"BAD\t{seq}\tk.market"])
+  | ["amm.k.mm", owner, bmin, bmax, bamt, smin, smax, samt, exp, outcome, orders] =>
+    match parseNat? owner, parseInt? bmin, parseInt? bmax, parseInt? bamt, parseInt? smin, parseInt? smax, parseInt? samt, parseInt? exp with
+    | some owner, some bmin, some bmax, some bamt, some smin, some smax, some samt, some exp =>
+      let buy := if bamt > 0 then some (bmin, bmax, bamt) else none
+      let sell := if samt > 0 then some (smin, smax, samt) else none
+      match placeMM ⟨st.k, st.mmIndex⟩ st.kprec st.kticks owner buy sell exp with
+      | none =>
+        (st, if outcome = "ok" then [s!"DIFF\t{seq}\tmodel=rejected (same batch)\timpl=ok {orders}"] else [])
+      | some st' =>
+        if outcome != "ok" then (st, []) else
+        let fresh := st'.k.orders.filter (fun so => decide (so.id ≥ st.k.nextId))
+        let m := ";".intercalate (fresh.map fun so =>
+          s!"{so.id}:{if so.dir = Dir.buy then 1 else 2}:{so.price}:{so.amount}:{so.offer}:{so.batchId}")
+        ({ st with k := st'.k, mmIndex := st'.mmIndex }, if m = orders then [] else [s!"DIFF\t{seq}\tmodel={m}\timpl={orders}"])
+    | _, _, _, _, _, _, _, _ => (st, [s!"BAD\t{seq}\tk.mm"])
   | ["amm.k.place", dir, mp, amt, exp, outcome, id, price, offer, batch] =>
     if outcome != "ok" then (st, []) else
     match (if dir = "1" then some Dir.buy else if dir = "2" then some Dir.sell else none), parseInt? mp, parseInt? amt, parseInt? exp with
@@ -257,7 +369,13 @@ def handle (st : St) (seq : String) (f : List String) : St × List String :=
       let (k', so) := placeOrder st.k st.kprec d mp amt exp
       let m := s!"{so.id}\t{so.price}\t{so.offer}\t{so.batchId}"
       let r := s!"{id}\t{price}\t{offer}\t{batch}"
-      ({ st with k := k' }, if m = r then [] else [s!"DIFF\t{seq}\tmodel={m}\timpl={r}"])
+      -- monitor on the REAL stored price: a tick of the grid, not above the message price for a buy, not below it for a sell
+      let mon := match parseInt? price with
+        | some rp =>
+          let within := match d with | .buy => decide (rp ≤ mp) | .sell => decide (mp ≤ rp)
+          if within && isTick rp st.kprec && decide (0 < rp) then [] else [s!"MON\t{seq}\tplaced_price_within_limit"]
+        | none => [s!"BAD\t{seq}\tk.place price"]
+      ({ st with k := k' }, (if m = r then [] else [s!"DIFF\t{seq}\tmodel={m}\timpl={r}"]) ++ mon)
     | _, _, _, _ => (st, [s!"BAD\t{seq}\tk.place"])
   | ["amm.k.batch", now, lp, bid, orders] =>
     match parseInt? now with
@@ -314,6 +432,44 @@ def handle (st : St) (seq : String) (f : List String) : St × List String :=
         (st, d ++ m1)
       | _, _ => (st, [s!"BAD\t{seq}\tpool lists"])
     | _, _, _, _, _ => (st, [s!"BAD\t{seq}\tpool"])
+  | ["amm.rp", fn, rx, ry, mn, mx, price, r] =>
+    match parseInt? rx, parseInt? ry, parseInt? mn, parseInt? mx, parseInt? price with
+    | some rx, some ry, some mn, some mx, some price =>
+      let ms : String := match RPool.new rx ry mn mx with
+        | none => "panic"
+        | some pl =>
+          if fn = "trans" then s!"{pl.transX}:{pl.transY}" else
+          let m : Option Int :=
+            if fn = "price" then pl.price
+            else if fn = "bo" then pl.buyAmountOver price
+            else if fn = "su" then pl.sellAmountUnder price
+            else if fn = "bt" then pl.buyAmountTo price
+            else if fn = "st" then pl.sellAmountTo price
+            else none
+          match m with | none => "panic" | some a => toString a
+      (st, if ms = r then [] else [s!"DIFF\t{seq}\trp {fn} {rx} {ry} {mn} {mx} {price}\tmodel={ms}\timpl={r}"])
+    | _, _, _, _, _ => (st, [s!"BAD\t{seq}\trp"])
+  | ["amm.rpool", rx, ry, mn, mx, lo, hi, prec, buys, sells] =>
+    match parseInt? rx, parseInt? ry, parseInt? mn, parseInt? mx, parseInt? lo, parseInt? hi, parseNat? prec with
+    | some rx, some ry, some mn, some mx, some lo, some hi, some prec =>
+      let sh := fun (l : List (Int × Int)) => ",".intercalate (l.map fun pa => s!"{pa.1}:{pa.2}")
+      match RPool.new rx ry mn mx with
+      | none => (st, [s!"DIFF\t{seq}\trpool: the model's NewRangedPool panics"])
+      | some pl =>
+        let m := s!"{sh (rPoolBuyOrders pl lo hi prec)}\t{sh (rPoolSellOrders pl lo hi prec)}"
+        let r := s!"{buys}\t{sells}"
+        let d := if m = r then [] else [s!"DIFF\t{seq}\tmodel={m}\timpl={r}"]
+        let parse := fun (t : String) => if t = "" then some [] else
+          (t.splitOn ",").mapM fun x => match x.splitOn ":" with
+            | [a, b] => do let a ← parseInt? a; let b ← parseInt? b; pure (a, b)
+            | _ => none
+        match parse buys, parse sells with
+        | some bl, some sl =>
+          let m1 := if monRPoolBuyOrders pl hi bl && monRPoolSellOrders pl lo sl then []
+            else [s!"MON\t{seq}\tpool_within_reserves_and_curve"]
+          (st, d ++ m1)
+        | _, _ => (st, [s!"BAD\t{seq}\trpool lists"])
+    | _, _, _, _, _, _, _ => (st, [s!"BAD\t{seq}\trpool"])
   | ["amm.bp", fn, rx, ry, price, r] =>
     match parseInt? rx, parseInt? ry, parseInt? price with
     | some rx, some ry, some price =>
